@@ -66,3 +66,78 @@ def _hpdec_num(h):
 
 from vsym import solve as _solve
 _solve.register_fn('HPDEC', _hpdec_num)
+
+
+# --- callee summaries for wiring checks -----------------------------------------------------------------
+class Tok:
+    """opaque value (e.g. a covariance matrix) produced by a summarised callee: kind + arguments"""
+
+    def __init__(self, kind, args=()):
+        self.kind = kind
+        self.args = tuple(args)
+        self.shape = (3, 3)
+
+    def __repr__(self):
+        return 'Tok(%s, %s)' % (self.kind, ', '.join(repr(a)[:40] for a in self.args))
+
+
+def enc(a):
+    """flatten a Python argument into (z3 real terms, structural tag)"""
+    from vsym.core import SymReal, SymBool, toz, exact_fraction
+    if isinstance(a, (SymReal, SymBool)):
+        return [toz(a)], 'r'
+    if isinstance(a, bool) or a is None or isinstance(a, str):
+        return [], repr(a)
+    if isinstance(a, (int, float)):
+        return [toz(a)], 'r'
+    if isinstance(a, Tok):
+        ts, tags = [], ['T:' + a.kind]
+        for x in a.args:
+            t, g = enc(x)
+            ts += t
+            tags.append(g)
+        return ts, '(' + ','.join(tags) + ')'
+    if isinstance(a, (list, tuple)):
+        ts, tags = [], []
+        for x in a:
+            t, g = enc(x)
+            ts += t
+            tags.append(g)
+        return ts, '[' + ','.join(tags) + ']'
+    cn = type(a).__name__
+    if cn == 'Ellipsoid':
+        return [toz(a.semimaj), toz(a.inversef)], 'Ell'
+    if cn == 'Projection':
+        return [toz(a.falseeast), toz(a.falsenorth), toz(a.cmscale), toz(a.zonewidth), toz(a.initialcm)], 'Prj'
+    if cn == 'Transformation':
+        return [toz(getattr(a, k)) for k in ('tx', 'ty', 'tz', 'sc', 'rx', 'ry', 'rz')], 'Trans(sd=%s)' % (a.tf_sd is not None)
+    if cn in ('DECAngle', 'HPAngle', 'GONAngle', 'DMSAngle', 'DDMAngle'):
+        return [toz(a.dec())], cn
+    return [], 'obj:' + cn
+
+
+def uf_call(name, n_out, *args):
+    """n_out uninterpreted results of the summarised call name(args); the structural tags are part of the function symbol"""
+    from vsym.core import SymReal
+    ts, tags = [], []
+    for a in args:
+        t, g = enc(a)
+        ts += t
+        tags.append(g)
+    sig = name + '<' + ';'.join(tags) + '>'
+    outs = []
+    for i in range(n_out):
+        f = z3.Function('%s#%d' % (sig, i), *([z3.RealSort()] * (len(ts) + 1)))
+        outs.append(SymReal(f(*ts)) if ts else SymReal(z3.Const('%s#%d' % (sig, i), z3.RealSort())))
+    return outs
+
+
+def tok_equal(a, b):
+    """z3 formula: two opaque values are built the same way from equal numbers (None == None)"""
+    if a is None or b is None:
+        return z3.BoolVal(a is None and b is None)
+    ta, ga = enc(a)
+    tb, gb = enc(b)
+    if ga != gb or len(ta) != len(tb):
+        return z3.BoolVal(False)
+    return z3.And(*[x == y for x, y in zip(ta, tb)]) if ta else z3.BoolVal(True)
